@@ -281,3 +281,9 @@ def r04_8_queries_are_used(ctx: Ctx) -> RuleResult:
                         else:
                             rr.ok()
     return rr
+
+
+# shared with C02: zone rules anchored on 29 February must use the calendar's leap predicate (home id R02.5)
+from .c02 import r02_5_leap_decisions as _r02_5  # noqa: E402
+
+rule("C04")(_r02_5)
